@@ -44,13 +44,6 @@ def _union_none(pid, v):
     return False
 
 
-@scope("F-NT-DEFAULT-INDEXERROR")
-def _nt_swallow(pid, v):
-    facts = (v["case"].get("facts") or {})
-    return (pid in ("C03", "C05") and facts.get("nt_swallow_reproduces") is True
-            and v["clause"] in ("accepted-rejected-input", "ref-decode-neq", "swallowed-as-default"))
-
-
 @scope("F-KWFLAG-MASKS-CALL-DIALECT")
 def _kwflag(pid, v):
     facts = (v["case"].get("facts") or {})
